@@ -129,6 +129,7 @@ func (ss *blobAccessMutableProtoStore[T, TProto]) Get(ctx context.Context, reduc
 			panic("Handle has bad write index")
 		}
 		handle.handlesToWriteIndex = -1
+		handle.isBeingWritten = true
 		handlesToWrite = append(handlesToWrite, handleToWrite[T, TProto]{
 			handle:         handle,
 			message:        proto.Clone(TProto(&handle.message)),
@@ -165,11 +166,13 @@ func (ss *blobAccessMutableProtoStore[T, TProto]) Get(ctx context.Context, reduc
 		group.Go(func() error {
 			if err := ss.initialSizeClassCache.Put(ctxWithCancel, handleToWrite.handle.digest, buffer.NewProtoBufferFromProto(handleToWrite.message, buffer.UserProvided)); err != nil {
 				ss.lock.Lock()
+				handleToWrite.handle.isBeingWritten = false
 				handleToWrite.handle.removeOrQueueForWriteLocked()
 				ss.lock.Unlock()
 				return util.StatusWrapf(err, "Failed to write mutable Protobuf message with digest %#v", handleToWrite.handle.digest.String())
 			}
 			ss.lock.Lock()
+			handleToWrite.handle.isBeingWritten = false
 			handleToWrite.handle.writtenVersion = handleToWrite.writingVersion
 			handleToWrite.handle.removeOrQueueForWriteLocked()
 			ss.lock.Unlock()
@@ -222,6 +225,13 @@ type blobAccessMutableProtoHandle[T any, TProto interface {
 	writtenVersion int
 	currentVersion int
 
+	// Whether a call to Get() is currently writing this handle to
+	// storage. While that is the case, the handle is neither queued
+	// for writing again, nor discarded. This ensures that at most
+	// one write per handle is in flight, and that a handle is only
+	// removed from the map when it is not queued.
+	isBeingWritten bool
+
 	// The index of this handle in the handlesToWrite list. We keep
 	// track of this index, so that we can remove the handle from
 	// the list if needed.
@@ -258,7 +268,7 @@ func (sh *blobAccessMutableProtoHandle[T, TProto]) decreaseUseCount() {
 }
 
 func (sh *blobAccessMutableProtoHandle[T, TProto]) removeOrQueueForWriteLocked() {
-	if sh.useCount == 0 {
+	if sh.useCount == 0 && !sh.isBeingWritten {
 		ss := sh.store
 		if sh.writtenVersion == sh.currentVersion {
 			// No changes were made to the message. Simply
